@@ -193,6 +193,15 @@ def run_case(desc):
             sh = np.array(q["shift"], float)
             sh[~pbc] = 0
             qs = qp + sh @ cell
+            # get_matches at the lattice-shifted query (possibly far outside the cell): IF it reports a vacancy, the reported
+            # cell offset must be the cell that contains the position, floor(fractional coordinates)
+            if sh.any():
+                okv, resv = call(mg.get_matches, at, cl, qs[None, :].copy(), [num], tol)
+                if okv and resv[0][0] is None and resv[1][0] is None and len(resv[2]) == 1:
+                    want_off = np.floor(np.linalg.solve(cell.T, qs) + 1e-12 * np.sign(np.linalg.solve(cell.T, qs)))
+                    fq = np.linalg.solve(cell.T, qs)
+                    if np.abs(fq - np.rint(fq)).min() > 1e-6 and not np.array_equal(np.array(resv[3][0], float), np.floor(fq)):
+                        out.fail("vacancy-offset", "vacancy at fractional position %s reported in cell %s, it lies in cell %s" % (np.round(fq, 4).tolist(), np.array(resv[3][0]).tolist(), np.floor(fq).tolist()))
             ok, res = call(mg.get_matches_simple, at, cl, qs[None, :].copy(), [num], tol)
             if not ok:
                 return out.fail("returns-normally", "get_matches_simple: %r" % res, key="exc:" + exc_key(res))
